@@ -257,7 +257,9 @@ func e2eRun(c *Ctx, seed int64, spec *e2eSpec, dir string) *e2eOutcome {
 		}
 		crash := false
 		for _, k := range spec.SenderCrashAt {
-			if k == n {
+			if k == n && !frozen {
+				// (not once the run has been found complete and the final graceful stop is
+				// under way: a crash then is simply the end of the run)
 				crash = true
 			}
 		}
@@ -286,9 +288,10 @@ func e2eRun(c *Ctx, seed int64, spec *e2eSpec, dir string) *e2eOutcome {
 			mu.Lock()
 			recvOps++
 			n := recvOps
+			fz := frozen
 			mu.Unlock()
 			for _, k := range spec.RecvCrashAt {
-				if k == n {
+				if k == n && !fz {
 					w.log.add(wEvent{Kind: "recv_crash_point", S: ev.Op + " " + filepath.Base(ev.Path), A: int64(n)})
 					w.crashReceiver()
 					out.recvCrash++
